@@ -1382,7 +1382,14 @@ func (q *Query) MapScanCAS(dest map[string]interface{}) (applied bool, err error
 		return false, err
 	}
 	iter.MapScan(dest)
-	applied = dest["[applied]"].(bool)
+	applied, ok := dest["[applied]"].(bool)
+	if !ok {
+		// MapScan failed (iter.err says why) or the result has no boolean [applied] column
+		if err := iter.Close(); err != nil {
+			return false, err
+		}
+		return false, errors.New("gocql: MapScanCAS: no boolean [applied] column in the result")
+	}
 	delete(dest, "[applied]")
 
 	return applied, iter.Close()
